@@ -255,18 +255,19 @@ def SyncPost (nk : Nat) (b : Int) (env : Env) (out : Out) (evs : List Event) : P
 theorem syncBody_exec (fuel nk : Nat) (b c : Int) (env : Env) (inp : List Val)
     (h1 : env.vars "node" = some (.ptr (.obj nk))) (h2 : env.vars "blocking" = some (.int b))
     (hp : env.priv (.glob "&attempt") = some (.int c)) :
-    ∃ o, exec fuel syncBody env inp = .ok o ∧ o.env.vars "node" = some (.ptr (.obj nk)) ∧
-      o.env.vars "blocking" = some (.int b) ∧ (∀ m, m ≠ .glob "&attempt" → o.env.priv m = env.priv m) ∧
+    ∃ o, exec fuel syncBody env inp = .ok o ∧ (∀ m, m ≠ .glob "&attempt" → o.env.priv m = env.priv m) ∧
       (∃ c', o.env.priv (.glob "&attempt") = some (.int c')) ∧ (∀ v ∈ o.inp, v ∈ inp) ∧
       ((inp = [] ∧ o.events = [] ∧ o.ctl = .blocked) ∨
        (∃ v, inp.head? = some v ∧ v ≠ .int 0 ∧ o.events = [.ld (.field (.obj nk) "next") v 1] ∧ o.ctl = .brk ∧
           o.env.vars "next" = some v) ∨
        (∃ evs, inp.head? = some (.int 0) ∧ o.events = .ld (.field (.obj nk) "next") (.int 0) 1 :: evs ∧
           evs.filterMap (absEv L) = [] ∧
-          ((b = 0 ∧ o.ctl = .ret (some (.int (-1)))) ∨ (b ≠ 0 ∧ (o.ctl = .blocked ∨ o.ctl = .normal))))) := by
+          ((b = 0 ∧ o.ctl = .ret (some (.int (-1)))) ∨
+           (b ≠ 0 ∧ (o.ctl = .blocked ∨ (o.ctl = .normal ∧ o.env.vars "node" = some (.ptr (.obj nk)) ∧
+              o.env.vars "blocking" = some (.int b))))))) := by
   cases inp with
   | nil =>
-    refine ⟨{ events := [], env := env, inp := [], ctl := .blocked }, ?_, h1, h2, fun _ _ => rfl, ⟨c, hp⟩, by simp,
+    refine ⟨{ events := [], env := env, inp := [], ctl := .blocked }, ?_, fun _ _ => rfl, ⟨c, hp⟩, by simp,
       Or.inl ⟨rfl, rfl, rfl⟩⟩
     simp [syncBody, Gen.Src.«___cds_wfcq_node_sync_next», block, exec, eval, evalArgs, execPrim, asLoc, bind,
       Except.bind, h1]
@@ -278,10 +279,19 @@ theorem syncBody_exec (fuel nk : Nat) (b c : Int) (env : Env) (inp : List Val)
       simp only [String.reduceEq, if_true, if_false, decide_true, bne_iff_ne, ne_eq, Int.reduceEq, not_false_eq_true,
         not_true_eq_false, Int.one_ne_zero, h1, h2]
       generalize hE : exec fuel Gen.Src.«___cds_wfcq_busy_wait» _ _ = r
-      trace_state
-      sorry
-    · refine ⟨{ events := [.ld (.field (.obj nk) "next") v 1], env := (env.setVar "_t2" v).setVar "next" v, inp := rest,
-          ctl := .brk }, ?_, by simp [Env.setVar, h1], by simp [Env.setVar, h2], fun _ _ => rfl, ⟨c, hp⟩,
+      rcases busy_exec L hE (.glob "&attempt") b c (by simp [bindParams]) (by simp [bindParams]) hp with
+        ⟨hb, vars, rfl⟩ | ⟨hb, evs, inp', ctl, c', ⟨vars, rfl⟩, hf, hsub, hctl⟩
+      · simp [hb, h1, h2, hp]
+        exact fun v hv => Or.inr hv
+      · rcases hctl with rfl | rfl
+        · simp [hb, h1, h2, hp]
+          trace_state
+          sorry
+        · simp [hb, h1, h2, hp]
+          trace_state
+          sorry
+    · refine ⟨⟨[.ld (.field (.obj nk) "next") v 1], (env.setVar "_t2" v).setVar "next" v, rest, .brk⟩,
+          ?_, fun _ _ => rfl, ⟨c, hp⟩,
           by simp +contextual, Or.inr (Or.inl ⟨v, rfl, hv, rfl, rfl, by simp [Env.setVar]⟩)⟩
       simp [syncBody, Gen.Src.«___cds_wfcq_node_sync_next», block, exec, eval, evalArgs, execPrim, asLoc, bind,
         Except.bind, h1, Env.setVar, setDst, evalBin, boolV, Val.truthy, hv]
